@@ -86,6 +86,9 @@ structure OpsSim (ops : SinkOps κ) (inpS inpW : Bytes) (δ : Nat) (K : Nat → 
         = (if a + d < x then ops.handleNonTag inpS ⟨pc + δ, ⟨a + d - δ, x - δ⟩, some (.text tt)⟩ ks else (ks, .ok ())).2 ∧
      K 0 (if a + d < x then ops.handleNonTag inpS ⟨pc + δ, ⟨a + d - δ, x - δ⟩, some (.text tt)⟩ ks else (ks, .ok ())).1
         (ops.handleNonTag inpW ⟨pc, ⟨a, x⟩, some (.text tt)⟩ kw).1)
+  textOk : ∀ pc raw tt ks,
+    EPanic (ops.handleNonTag inpS ⟨pc, raw, some (.text tt)⟩ ks).2 ∨
+    (ops.handleNonTag inpS ⟨pc, raw, some (.text tt)⟩ ks).2 = .ok ()
   startHint : ∀ n ns ks kw, K 0 ks kw →
     (ops.startTagHint n ns kw).2 = (ops.startTagHint n ns ks).2 ∧ K 0 (ops.startTagHint n ns ks).1 (ops.startTagHint n ns kw).1
   endHint : ∀ n ks kw, K 0 ks kw →
